@@ -17,6 +17,7 @@ package main
 //   restorer         = function that calls content.Successors                      (restoreDuplicates)
 
 import (
+	"go/constant"
 	"go/token"
 	"go/types"
 	"strings"
@@ -612,9 +613,24 @@ func c12R1Dir(c *Ctx, fns []*ssa.Function) {
 				continue
 			}
 			keyOK := false
+			keyVals := []ssa.Value{a[1]}
+			// desc.Digest of a local Descriptor: the value stored into that field
+			for _, r := range Roots(a[1]) {
+				if ld, ok := r.(*ssa.UnOp); ok && ld.Op == token.MUL {
+					if kfa, ok := ld.X.(*ssa.FieldAddr); ok {
+						for _, st := range c12FieldStores(D, c12Desc, "Digest") {
+							if sfa := st.Addr.(*ssa.FieldAddr); sfa.Field == kfa.Field && c11SameRoots(sfa.X, kfa.X) {
+								keyVals = append(keyVals, st.Val)
+							}
+						}
+					}
+				}
+			}
 			for _, call := range dgCalls {
-				if c11DerivesFrom(a[1], map[ssa.Value]bool{call: true}) {
-					keyOK = true
+				for _, kv := range keyVals {
+					if c11DerivesFrom(kv, map[ssa.Value]bool{call: true}) {
+						keyOK = true
+					}
 				}
 			}
 			valOK := false
@@ -670,79 +686,12 @@ func c12R1File(c *Ctx, fns []*ssa.Function) {
 		}
 		c.Check(R1, fn+"|success-implies-digest-ok", fr.Pos(), okSucc,
 			ifelse(okSucc, "every successful return lies behind the err==nil edge of digest.FromReader", "a read error while digesting still yields a descriptor (with an empty/partial digest)"))
-		// size from the FileInfo of the same path
+		// size from the FileInfo of the same path (taken here, or by the caller and handed over as FileInfo or as size)
 		sst := c12FieldStores(F, c12Desc, "Size")
 		okSize := len(sst) > 0 && pathArg != nil
-		var fiParam, pathParam *ssa.Parameter
-		if pathArg != nil {
-			if rs := Roots(pathArg); len(rs) == 1 {
-				pathParam, _ = rs[0].(*ssa.Parameter)
-			}
-		}
 		for _, s := range sst {
-			rs := Roots(s.Val)
-			if len(rs) != 1 {
+			if !okSize || !c12SizeOfPath(s.Val, F, pathArg, fns, false, 0) {
 				okSize = false
-				continue
-			}
-			recv, _ := c12Invoke(rs[0], "Size")
-			if recv == nil {
-				okSize = false
-				continue
-			}
-			rr := Roots(recv)
-			if len(rr) == 1 {
-				if p, ok := rr[0].(*ssa.Parameter); ok {
-					fiParam = p
-					continue
-				}
-				// or a Stat of the same path / file inside the function
-				if ex, ok := rr[0].(*ssa.Extract); ok && ex.Index == 0 {
-					if call, ok := ex.Tuple.(*ssa.Call); ok && (CalleeName(call) == "os.Stat" || CalleeName(call) == "(*os.File).Stat") {
-						continue
-					}
-				}
-			}
-			okSize = false
-		}
-		if okSize && fiParam != nil {
-			// callers: fi = os.Stat(p) with p the path argument
-			if pathParam == nil {
-				okSize = false
-			} else {
-				idxOf := func(p *ssa.Parameter) int {
-					for i, q := range F.Params {
-						if q == p {
-							return i
-						}
-					}
-					return -1
-				}
-				fi, pi := idxOf(fiParam), idxOf(pathParam)
-				n := 0
-				for _, g := range fns {
-					for _, call := range Calls(g, func(string) bool { return true }) {
-						if StaticCallee(call) != F {
-							continue
-						}
-						n++
-						args := call.Common().Args
-						okCall := false
-						for _, r := range Roots(args[fi]) {
-							if ex, ok := r.(*ssa.Extract); ok && ex.Index == 0 {
-								if st, ok := ex.Tuple.(*ssa.Call); ok && (CalleeName(st) == "os.Stat" || CalleeName(st) == "os.Lstat") && c11SameRoots(st.Call.Args[0], args[pi]) {
-									okCall = true
-								}
-							}
-						}
-						if !okCall {
-							okSize = false
-						}
-					}
-				}
-				if n == 0 {
-					okSize = false
-				}
 			}
 		}
 		c.Check(R1, fn+"|size-of-same-path", F.Pos(), okSize,
@@ -760,6 +709,73 @@ func c12R1File(c *Ctx, fns []*ssa.Function) {
 		c.Check(R1, fn+"|digest-maps-to-path", F.Pos(), okMap,
 			ifelse(okMap, "digestToPath[digest] = the path that was digested", "the digest is not mapped to the file it was computed from"))
 	}
+}
+
+// c12SizeOfPath: v is Size() of the FileInfo obtained by os.Stat/Lstat of
+// `path` (or Stat of an open file); the FileInfo (info=true) or the size may be
+// a parameter, then every caller must supply such a value for the path it passes.
+func c12SizeOfPath(v ssa.Value, F *ssa.Function, path ssa.Value, fns []*ssa.Function, info bool, depth int) bool {
+	rs := Roots(v)
+	if len(rs) != 1 || depth > 3 {
+		return false
+	}
+	switch u := rs[0].(type) {
+	case *ssa.Parameter:
+		if u.Parent() != F || F.Parent() != nil {
+			return false
+		}
+		pr := Roots(path)
+		if len(pr) != 1 {
+			return false
+		}
+		pp, ok := pr[0].(*ssa.Parameter)
+		if !ok || pp.Parent() != F {
+			return false
+		}
+		vi, pi := -1, -1
+		for i, q := range F.Params {
+			if q == u {
+				vi = i
+			}
+			if q == pp {
+				pi = i
+			}
+		}
+		n := 0
+		for _, g := range fns {
+			for _, call := range Calls(g, func(string) bool { return true }) {
+				if StaticCallee(call) != F {
+					continue
+				}
+				n++
+				args := call.Common().Args
+				if vi < 0 || pi < 0 || !c12SizeOfPath(args[vi], g, args[pi], fns, info, depth+1) {
+					return false
+				}
+			}
+		}
+		return n > 0
+	case *ssa.Call:
+		if !info {
+			recv, _ := c12Invoke(u, "Size")
+			return recv != nil && c12SizeOfPath(recv, F, path, fns, true, depth)
+		}
+	case *ssa.Extract:
+		if !info || u.Index != 0 {
+			return false
+		}
+		st, ok := u.Tuple.(*ssa.Call)
+		if !ok {
+			return false
+		}
+		switch CalleeName(st) {
+		case "os.Stat", "os.Lstat":
+			return c11SameRoots(st.Call.Args[0], path)
+		case "(*os.File).Stat":
+			return true
+		}
+	}
+	return false
 }
 
 // ---------- R2 ----------
@@ -901,10 +917,48 @@ func c12R2(c *Ctx, fns []*ssa.Function) {
 			// nil return dominated by Verified() when a verifier exists
 			var verT, noVer []Edge
 			var verRecvs []ssa.Value
+			var fnRecvs [][2]ssa.Value // (function value consulted, the bound Verified it must be on the parse-success path)
 			for _, i := range Ifs(E) {
 				cond, t, _ := ifEdges(i)
 				recv, _ := c12Invoke(cond, "Verified")
 				if recv == nil {
+					// `verified := func() bool { return true }; … verified = verifier.Verified; if !verified()`:
+					// a function value that is either the bound method Verified of the verifier or a constant-true stand-in
+					if dc, ok := cond.(*ssa.Call); ok && !dc.Call.IsInvoke() && StaticCallee(dc) == nil {
+						var bound ssa.Value
+						okFn := true
+						for _, rt := range Roots(dc.Call.Value) {
+							mc, isMC := rt.(*ssa.MakeClosure)
+							var g *ssa.Function
+							if isMC {
+								g = mc.Fn.(*ssa.Function)
+							} else if fnv, isFn := rt.(*ssa.Function); isFn {
+								g = fnv
+							}
+							switch {
+							case g == nil:
+								okFn = false
+							case isMC && strings.HasPrefix(g.Synthetic, "bound method") && strings.HasPrefix(g.Name(), "Verified") && len(mc.Bindings) == 1 && c11SameRoots(mc.Bindings[0], verifier):
+								bound = mc
+							default:
+								// stand-in: every return is the constant true
+								for _, ret := range Returns(g) {
+									if len(ret.Results) != 1 {
+										okFn = false
+										continue
+									}
+									k, isConst := ret.Results[0].(*ssa.Const)
+									if !isConst || k.Value == nil || !constant.BoolVal(k.Value) {
+										okFn = false
+									}
+								}
+							}
+						}
+						if okFn && bound != nil {
+							verT = append(verT, t)
+							fnRecvs = append(fnRecvs, [2]ssa.Value{dc.Call.Value, bound})
+						}
+					}
 					continue
 				}
 				// the value consulted at the end is the very verifier the tee feeds
@@ -942,6 +996,11 @@ func c12R2(c *Ctx, fns []*ssa.Function) {
 					for _, edge := range ne {
 						for _, rv := range verRecvs {
 							if !c12NonNilBehind(rv, edge, verifier, 0) {
+								okVer = false
+							}
+						}
+						for _, fr := range fnRecvs {
+							if !c12NonNilBehind(fr[0], edge, fr[1], 0) {
 								okVer = false
 							}
 						}
@@ -1302,6 +1361,69 @@ func c12FlagSets(fns []*ssa.Function, field string) map[*ssa.Function]map[ssa.Va
 				}
 			})
 		}
+		// a struct field that only ever receives the flag carries it (closure state turned into a struct)
+		type fkey struct {
+			t types.Type
+			i int
+		}
+		all := map[fkey]bool{}
+		any := map[fkey]bool{}
+		for _, f := range fns {
+			cur := sets[f]
+			AllInstrs(f, func(in ssa.Instruction) {
+				st, ok := in.(*ssa.Store)
+				if !ok {
+					return
+				}
+				fa, ok := st.Addr.(*ssa.FieldAddr)
+				if !ok {
+					return
+				}
+				var k fkey
+				found := false
+				for kk := range all {
+					if kk.i == fa.Field && types.Identical(kk.t, fa.X.Type()) {
+						k, found = kk, true
+					}
+				}
+				if !found {
+					k = fkey{fa.X.Type(), fa.Field}
+					all[k] = true
+				}
+				isFlag := cur[st.Val]
+				if !isFlag {
+					rs := Roots(st.Val)
+					isFlag = len(rs) > 0
+					for _, r := range rs {
+						if !cur[r] {
+							isFlag = false
+						}
+					}
+				}
+				if isFlag {
+					any[k] = true
+				} else {
+					all[k] = false
+				}
+			})
+		}
+		for _, f := range fns {
+			AllInstrs(f, func(in ssa.Instruction) {
+				ld, ok := in.(*ssa.UnOp)
+				if !ok || ld.Op != token.MUL {
+					return
+				}
+				fa, ok := ld.X.(*ssa.FieldAddr)
+				if !ok {
+					return
+				}
+				for k := range any {
+					if all[k] && k.i == fa.Field && types.Identical(k.t, fa.X.Type()) && add(f, ld) {
+						changed = true
+					}
+				}
+			})
+		}
 		if !changed {
 			break
 		}
@@ -1438,6 +1560,59 @@ func c12R3(c *Ctx, fns []*ssa.Function) {
 		}
 		return out
 	}
+	// zeroPoints: instructions whose execution means "field cleared": a direct zero store, or the header of a
+	// range loop over a literal table of field addresses (&h.A, &h.B, …) whose body clears *elem on every iteration
+	zeroPoints := func(field string) []ssa.Instruction {
+		var out []ssa.Instruction
+		for _, s := range stores(field) {
+			if c12IsZero(s.Val) {
+				out = append(out, s)
+			}
+		}
+		for _, l := range Loops(X) {
+			ranged, _, body, _, ok := l.RangeIndex()
+			if !ok {
+				continue
+			}
+			var els []ssa.Value
+			if rs := Roots(ranged); len(rs) == 1 {
+				c11SliceElems(rs[0], &els)
+			}
+			covers := false
+			for _, e := range els {
+				fa, ok := e.(*ssa.FieldAddr)
+				if !ok || !c11SameRoots(fa.X, hdr) {
+					continue
+				}
+				if st, ok := fa.X.Type().Underlying().(*types.Pointer); ok {
+					if str, ok := st.Elem().Underlying().(*types.Struct); ok && str.Field(fa.Field).Name() == field {
+						covers = true
+					}
+				}
+			}
+			if !covers {
+				continue
+			}
+			var clr ssa.Instruction
+			AllInstrs(X, func(in ssa.Instruction) {
+				st, ok := in.(*ssa.Store)
+				if !ok || !l.Contains(st) || !c12IsZero(st.Val) {
+					return
+				}
+				for _, r := range Roots(st.Addr) {
+					if ld, ok := r.(*ssa.UnOp); ok && ld.Op == token.MUL {
+						if ia, ok := ld.X.(*ssa.IndexAddr); ok && c11SameRoots(ia.X, ranged) {
+							clr = st
+						}
+					}
+				}
+			})
+			if clr != nil && !reach(body.To, 0, l.Header.Instrs[0], newCut().Instr(clr)) {
+				out = append(out, l.Header.Instrs[0])
+			}
+		}
+		return out
+	}
 	allDone := func(cutOf func() *cut) bool {
 		for _, d := range done {
 			if !MustPass(d, cutOf()) {
@@ -1470,12 +1645,7 @@ func c12R3(c *Ctx, fns []*ssa.Function) {
 	} else {
 		onT, onF := BoolTests(X, flag)
 		for _, f := range []string{"ModTime", "AccessTime", "ChangeTime"} {
-			var zs []ssa.Instruction
-			for _, s := range stores(f) {
-				if c12IsZero(s.Val) {
-					zs = append(zs, s)
-				}
-			}
+			zs := zeroPoints(f)
 			ok := len(onT) > 0 && len(zs) > 0 && allDone(func() *cut { return newCut().Instr(zs...).Edges(onF...) })
 			for _, e := range onT {
 				for _, d := range done {
